@@ -86,6 +86,25 @@ class RefPairings:
     def listing(self) -> List[Tuple[bytes, bytes, bool]]:
         return [(idb, key, bool(p & 1)) for idb, key, p in self.entries.values()]
 
+    def listing_matches(self, got: List[Tuple[bytes, bytes, bool]], parse) -> bool:
+        """`got` (decoded list answer) is exactly the current pairings: one entry per pairing with its
+        key and admin flag, and the identifier bytes it was registered with. For a pairing whose
+        presented bytes this observer never saw (imported from a state file that does not record them)
+        any spelling naming that controller is accepted. `parse(bytes) -> uuid int | None`."""
+        seen = {}
+        for idb, key, admin in got:
+            u = parse(idb)
+            if u is None or u in seen or u not in self.entries:
+                return False
+            seen[u] = (idb, key, admin)
+        if set(seen) != set(self.entries):
+            return False
+        for u, (idb, key, admin) in seen.items():
+            ridb, rkey, rperm = self.entries[u]
+            if key != rkey or admin != bool(rperm & 1) or (ridb is not None and idb != ridb):
+                return False
+        return True
+
     def pairing_set(self):
         """{(uuid, key, admin?)} -- 'the set of pairings'"""
         return {(u, key, bool(p & 1)) for u, (_, key, p) in self.entries.items()}
